@@ -124,7 +124,7 @@ def build(variant="plain", config="small-a", verbose=False):
             if verbose and res.strip():
                 print(res)
     lib = os.path.join(out, "librx.so")
-    link = [cxx, "-shared", "-o", lib] + objs + [WRAP, "-Wl,-z,noexecstack"]
+    link = [cxx, "-shared", "-o", lib] + objs + [WRAP, "-Wl,-z,noexecstack", "-Wl,-z,relro", "-Wl,-z,now"]
     if tsan:
         link.append("-fsanitize=thread")
     run(link)
